@@ -1,6 +1,8 @@
 package dns_naming
 
 import (
+	"encoding/binary"
+	"hash/crc32"
 	"net"
 	"net/netip"
 	"strings"
@@ -260,14 +262,21 @@ type cache struct {
 	expiry time.Time
 }
 
-func (h *DNSHandler) getMDNSCache(mac net.HardwareAddr, id uint16) (c cache, found bool) {
-	h.mutex.Lock() // expired entries are deleted below: needs the write lock
-	defer h.mutex.Unlock()
-	key := make([]byte, 6+2)
+// mdnsCacheKey identifies a message: sender, id (always 0 in mdns responses) and a digest of the message itself
+func mdnsCacheKey(mac net.HardwareAddr, id uint16, sum uint32) string {
+	key := make([]byte, 6+2+4)
 	copy(key, mac)
 	key[6] = byte(id >> 8)
 	key[7] = byte(id)
-	if c, found := h.mdnsCache[string(key)]; found {
+	binary.BigEndian.PutUint32(key[8:], sum)
+	return string(key)
+}
+
+func (h *DNSHandler) getMDNSCache(mac net.HardwareAddr, id uint16, sum uint32) (c cache, found bool) {
+	h.mutex.Lock() // expired entries are deleted below: needs the write lock
+	defer h.mutex.Unlock()
+	key := mdnsCacheKey(mac, id, sum)
+	if c, found := h.mdnsCache[key]; found {
 		if c.expiry.After(time.Now()) {
 			if Debug {
 				l := LoggerMDNS.Msg("found in mdns chache").MAC("mac", mac).Uint16("id", id)
@@ -281,7 +290,7 @@ func (h *DNSHandler) getMDNSCache(mac net.HardwareAddr, id uint16) (c cache, fou
 			}
 			return c, true
 		}
-		delete(h.mdnsCache, string(key))
+		delete(h.mdnsCache, key)
 		if Debug {
 			LoggerMDNS.Msg("delete from mdns chache").MAC("mac", mac).Uint16("id", id).Write()
 		}
@@ -289,7 +298,7 @@ func (h *DNSHandler) getMDNSCache(mac net.HardwareAddr, id uint16) (c cache, fou
 	return cache{}, false
 }
 
-func (h *DNSHandler) putMDNSCache(mac net.HardwareAddr, id uint16, ipv4 []packet.IPNameEntry, ipv6 []packet.IPNameEntry) {
+func (h *DNSHandler) putMDNSCache(mac net.HardwareAddr, id uint16, sum uint32, ipv4 []packet.IPNameEntry, ipv6 []packet.IPNameEntry) {
 	if Debug {
 		l := LoggerMDNS.Msg("add to mdns chache").MAC("mac", mac).Uint16("id", id)
 		for _, v := range ipv4 {
@@ -301,11 +310,8 @@ func (h *DNSHandler) putMDNSCache(mac net.HardwareAddr, id uint16, ipv4 []packet
 		l.Write()
 	}
 	h.mutex.Lock()
-	key := make([]byte, 6+2)
-	copy(key, mac)
-	key[6] = byte(id >> 8)
-	key[7] = byte(id)
-	h.mdnsCache[string(key)] = cache{id: id, ipv4: ipv4, ipv6: ipv6, expiry: time.Now().Add(time.Minute * 5)}
+	key := mdnsCacheKey(mac, id, sum)
+	h.mdnsCache[key] = cache{id: id, ipv4: ipv4, ipv6: ipv6, expiry: time.Now().Add(time.Minute * 5)}
 	h.mutex.Unlock()
 }
 
@@ -363,7 +369,9 @@ func (h *DNSHandler) ProcessMDNS(frame packet.Frame) (ipv4 []packet.IPNameEntry,
 		LoggerMDNS.Msg("response rcvd").Struct(addr).Struct(packet.DNS(frame.Payload())).Write()
 	}
 
-	if _, found := h.getMDNSCache(frame.SrcAddr.MAC, dnsHeader.ID); found {
+	// the same answer is multicast several times; a different answer from the same station is not a duplicate
+	sum := crc32.ChecksumIEEE(frame.Payload())
+	if _, found := h.getMDNSCache(frame.SrcAddr.MAC, dnsHeader.ID, sum); found {
 		return nil, nil, nil
 	}
 
@@ -421,7 +429,7 @@ func (h *DNSHandler) ProcessMDNS(frame packet.Frame) (ipv4 []packet.IPNameEntry,
 				}
 
 				// this is the last section; cache entry and return
-				h.putMDNSCache(frame.SrcAddr.MAC, dnsHeader.ID, ipv4, ipv6)
+				h.putMDNSCache(frame.SrcAddr.MAC, dnsHeader.ID, sum, ipv4, ipv6)
 				return ipv4, ipv6, nil
 			}
 		}
